@@ -385,6 +385,12 @@ class Replayer:
         if wt is None or not wt.active:
             return None
         s = _norm(sql)
+        if getattr(self, "free", False):      # spec-independent schedules: EVERY statement is a scheduling point
+            kind = "r" if s[:6].upper() in ("SELECT", "PRAGMA") else "w"
+            if kind == "w":
+                wt.touched = True
+            wt.park(kind)
+            return None
         p = args[0] if args and isinstance(args[0], dict) else {}
         kind = None
         if s.startswith("SELECT * FROM stage_executions WHERE id = :id"):
@@ -621,6 +627,50 @@ class Replayer:
             except RuntimeError:
                 pass
 
+    # -------- schedules that do not follow the specification's statement sequence
+    def free_run(self, c: dict, plan: list) -> dict:
+        """plan = [[writer, n statements], ...]: the writers are stepped at EVERY SQL statement / commit / rollback in
+        that order (then each runs to its end), whatever statements the store issues.  A writer about to write while
+        another one holds SQLite's write lock would only wait for it: the holder is stepped instead.
+        Returns {"res": {w: result}, "db": committed rows, "steps": schedule actually taken}."""
+        self._setup(c)
+        job = self._job(c)
+        ws = {w: self.writers[w] for w in c["writers"]}
+        self.free = True
+        taken = []
+        try:
+            for wt in ws.values():
+                self._start(wt, job)
+
+            def holder():
+                return next((w for w, wt in ws.items() if wt.at != "done" and wt.conn.in_transaction), None)
+
+            for w, k in list(plan) + [[w, 10 ** 6] for w in ws]:
+                n = 0
+                guard = 0
+                while ws[w].at != "done" and n < k:
+                    guard += 1
+                    if guard > 400:
+                        raise RuntimeError("free schedule does not terminate")
+                    h = holder()
+                    mover = w
+                    if h is not None and h != w and ws[w].at in ("w", "co"):
+                        mover = h
+                    wt = ws[mover]
+                    taken.append(f"{mover}{wt.at}")
+                    self._step(wt)
+                    if wt.err and wt.err != "aborted":
+                        raise RuntimeError(f"writer {mover} crashed: {wt.err}")
+                    if mover == w:
+                        n += 1
+            return {"res": {str(w): wt.res for w, wt in ws.items()}, "db": self.read_db(c), "steps": " ".join(taken)}
+        finally:
+            self.free = False
+            try:
+                self._abort_all()
+            except RuntimeError:
+                pass
+
     def _fail(self, kind, at, what, expected, observed) -> dict:
         return {"ok": False, "kind": kind, "at": at, "what": what, "expected": expected, "observed": observed}
 
@@ -691,6 +741,115 @@ def replay_all(work: list[tuple[dict, list]], journal: str, corrupt: dict | None
     finally:
         shutil.rmtree(parent, ignore_errors=True)
     return n, fails, time.time() - t0, per
+
+
+def _free_job(args) -> list[dict]:
+    c, plans = args
+    out = []
+    for plan in plans:
+        try:
+            r = _REP.free_run(c, plan)
+        except RuntimeError as e:
+            r = {"error": str(e)}
+        r["plan"] = plan
+        out.append(r)
+    return out
+
+
+def final_key(res: dict, db: dict) -> str:
+    return json.dumps({"res": {str(k): v for k, v in res.items()}, "db": Replayer._canon_db(db)}, sort_keys=True)
+
+
+def free_plans(c: dict, tier: str, rnd: random.Random) -> list[list]:
+    """every schedule with at most two preemptions (a runs j statements, b runs k, a runs to its end, b finishes)"""
+    a, b = c["writers"][:2]
+    J = 16 if tier == "quick" else 26
+    plans = []
+    for x, y in ((a, b), (b, a)):
+        for j in range(0, J + 1):
+            plans.append([[x, j], [y, 10 ** 6]])                   # one preemption
+            for k in range(1, J + 1):
+                plans.append([[x, j], [y, k], [x, 10 ** 6]])       # two
+    if tier == "quick":
+        one = [p for p in plans if len(p) == 2]
+        two = [p for p in plans if len(p) == 3]
+        plans = one + rnd.sample(two, min(len(two), 160))
+    return plans
+
+
+def free_all(work: list[tuple[dict, list]], journal: str = "DELETE", scenario: str = "store"):
+    """work: [(config, plans)] -> list of (config, result)"""
+    import concurrent.futures as cf
+    import multiprocessing as mp
+
+    jobs = []
+    for c, plans in work:
+        for i in range(0, len(plans), 40):
+            jobs.append((c, plans[i:i + 40]))
+    out = []
+    if not jobs:
+        return out
+    parent = core.scratch_dir("c07free")
+    try:
+        with cf.ProcessPoolExecutor(max_workers=NPROC, mp_context=mp.get_context("fork"), initializer=_worker_init,
+                                    initargs=(journal, scenario, parent)) as ex:
+            for job, res in zip(jobs, ex.map(_free_job, jobs, chunksize=1)):
+                out += [(job[0], r) for r in res]
+    finally:
+        shutil.rmtree(parent, ignore_errors=True)
+    return out
+
+
+def allowed_finals(e: dict) -> set:
+    fin = set()
+    for path, _, _ in e["chunks"]:
+        for b in load_chunk(path):
+            fin.add(final_key(b["final"]["res"], b["final"]["db"]))
+    return fin
+
+
+def free_component(rep, cs: list[dict], exported: dict, tier: str, rnd: random.Random, kind: str = "free") -> dict:
+    """Statement schedules that do NOT follow Store.tla's statement sequence, judged by its TERMINAL states: whatever
+    statements the store issues, the writers' results and the committed rows at the end must be the end of SOME behaviour
+    of the specification for that configuration (= one winner per version, the loser reports the conflict, the final
+    row is the fold of the successful saves).  This keeps deciding the property when the code's statement sequence
+    changes (where the lock-step replay can only report drift)."""
+    t0 = time.time()
+    work = []
+    allowed = {}
+    for c in cs:
+        if len(c["writers"]) != 2 or c["busy"] or c["simulate"] or c["reduced"]:
+            continue
+        allowed[c["name"]] = allowed_finals(exported[c["name"]])
+        work.append((c, free_plans(c, tier, rnd)))
+    res = []
+    for scen in sorted({c.get("scenario", "store") for c, _ in work}):
+        res += free_all([(c, p) for c, p in work if c.get("scenario", "store") == scen], "DELETE", scen)
+    n = bad = inconclusive = 0
+    distinct = set()
+    for c, r in res:
+        n += 1
+        if "error" in r:
+            rep.machinery_failure(f"free schedule {c['name']} {r['plan']}: {r['error']}")
+            continue
+        if any(v is None or "locked" in str(v) or "OperationalError" in str(v) for v in r["res"].values()):
+            inconclusive += 1        # a lock wait timed out: not an outcome the non-busy configurations describe
+            continue
+        distinct.add(r["steps"])
+        if final_key(r["res"], r["db"]) not in allowed[c["name"]]:
+            bad += 1
+            if bad <= 6:
+                doc = {"kind": kind, "config": c, "plan": r["plan"], "journal": "DELETE",
+                       "observed": {"res": r["res"], "db": r["db"], "steps": r["steps"]}}
+                rep.violation(f"{c['name']} schedule {r['steps']}: results {r['res']} with final rows {json.dumps(r['db'])[:300]} are not "
+                              "the end of any behaviour of Store.tla for this configuration (two saves based on one version "
+                              "both succeeded, or a committed change was lost, or the loser saw no conflict)",
+                              {"formula": "TerminalStateAllowed", "source": "free-schedule", "config": c["name"]}, doc)
+    if n and inconclusive > n // 5:
+        rep.machinery_failure(f"free schedules: {inconclusive}/{n} ended in a lock time-out")
+    return {"configs": len(work), "schedules_run": n, "distinct_statement_schedules": len(distinct), "not_allowed": bad,
+            "lock_timeouts_not_judged": inconclusive, "wall_s": round(time.time() - t0, 1),
+            "judge": "final (results, rows) must be the final state of some behaviour TLC enumerated for the configuration"}
 
 
 def pick_parts(chunks: list[tuple[str, int, int]], total: int, cap: int, rnd: random.Random) -> list[tuple[str, int, set | None]]:
@@ -831,10 +990,14 @@ def run(pid: str, tier: str, seed: int) -> int:
             ex0 = next(f for f in fails if f["kind"] == "statement")
             msg = (f"{stmt_drift} replayed behaviours left the specification's statement sequence, e.g. "
                    f"{ex0['config']}#{ex0['beh']}: {ex0['what']}")
-            if stmt_drift > max(3, n_rep // 100):
-                rep.machinery_failure(msg)
-            else:
-                print("DRIFT: " + msg)
+            print("DRIFT: " + msg)
+
+        # ---- 2b. schedules off the specification's statement sequence, judged by its terminal states.  When the store's
+        # statement sequence has drifted away from Store.tla the lock-step replay decides nothing any more: the property
+        # is then decided by these schedules alone, so all of them are run (DESIGN 13.3, C07)
+        drifted = stmt_drift > max(3, n_rep // 100)
+        free = free_component(rep, cs, exported, "thorough" if drifted else tier, rnd)
+        free["statement_sequence_drifted"] = drifted
 
         # ---- 3. engine-level pairs
         pairs = None
@@ -867,6 +1030,7 @@ def run(pid: str, tier: str, seed: int) -> int:
         }
         if pairs is not None:
             coverage["engine_pairs"] = pairs
+        coverage["free_schedules"] = free
         evidence.write_evidence(pid, tier, seed, "model_checking", coverage, wall, violations=len(rep.violations),
                                 assumptions=["SQLite serialises write transactions (first DML .. commit) and gives single-statement "
                                              "read snapshots outside a transaction (probed: DESIGN 4.6; re-checked by the lock-holder "
@@ -894,6 +1058,25 @@ def replay(pid: str, path: str) -> int:
         from . import store_pairs
 
         return store_pairs.replay(pid, path, doc)
+    if doc.get("kind") == "free":
+        from . import store_pairs  # noqa: F401  (registers the pair scenarios)
+    if doc.get("kind") == "free":
+        outdir = core.scratch_dir("c07beh")
+        try:
+            e = export_behaviours(doc["config"], 1, outdir)
+            ok = allowed_finals(e)
+            res = free_all([(doc["config"], [doc["plan"]])], "DELETE", doc["config"].get("scenario", "store"))
+        finally:
+            shutil.rmtree(outdir, ignore_errors=True)
+        for _, r in res:
+            print("schedule:", r.get("steps"), "results:", r.get("res"), "rows:", json.dumps(r.get("db"))[:400])
+            if "error" in r:
+                return 2
+            if final_key(r["res"], r["db"]) not in ok:
+                print(f"VIOLATION property={pid} replay={path}")
+                return 1
+        print("the outcome is the end of a behaviour of Store.tla")
+        return 0
     n, fails, _, _ = replay_all([(doc["config"], [([doc["behaviour"]], 0, None)])], doc.get("journal", "DELETE"))
     for f in fails:
         print("replayed:", f["kind"], f["what"], "expected", f["expected"], "observed", f["observed"])
